@@ -2,8 +2,9 @@
 
 model level : TLC checks the contract machine spec/XoHybrid.tla (Mirror at every depth, CopyIndependent, PartsInside,
               RefShares, MoveRefusal; action properties CopyEqual, MovePreserves, WriteLocal, NestedStoresCopy) on every
-              history up to the tier's depth for eight initial populations; a run with Bug = TRUE (the pinned tree's
-              nested assignment) must violate Mirror (non-vacuity self test).
+              history up to the tier's depth for nine initial populations; a run with Bug = TRUE (the pinned tree's
+              nested assignment; for parts with two references: a dressing that keeps the source's sharing) must violate
+              Mirror (non-vacuity self test).
 spec -> code: TLC exports EVERY transition of the bounded state graph (XoHybridGen.tla) together with the first (shortest)
               history that reaches its pre-state; each one is replayed on REAL xo.HybridClass definitions (several
               realisations of the class family: all 10 scalar kinds, strings, static / dynamic / 2-D arrays, renamed fields)
@@ -28,22 +29,24 @@ CT = {
     "Holder": [("r", "r", "ref", "Leaf"), ("h", "h", "leaf", None)],
     "Renamed": [("_x", "x", "leaf", None), ("_in", "inn", "nest", "Leaf"), ("y", "y", "leaf", None)],
     "Wrap": [("hold", "hold", "nest", "Holder"), ("w", "w", "leaf", None)],        # a nested part that itself holds a reference
+    "Pair": [("r1", "r1", "ref", "Leaf"), ("_r2", "r2", "ref", "Leaf"), ("p", "p", "leaf", None)],      # two references (the second renamed)
+    "WrapPair": [("hold", "hold", "nest", "Pair"), ("w", "w", "leaf", None)],      # a nested part that holds two references
 }
 # realisations: slot -> ("sc", kind) | ("str",) | ("arr", kind, declared shape, concrete shape); wr = how an array slot is written
 VARIANTS = [
     dict(name="dyn", w=("sc", "Float32"), a=("sc", "Int64"), s=("str",), arr=("arr", "Float64", (None,), (3,)), k=("sc", "Int32"), z=("sc", "Float64"),
-         h=("sc", "Int64"), x=("sc", "Int64"), y=("sc", "Float32"), wr="whole", cap=1 << 14),
+         h=("sc", "Int64"), x=("sc", "Int64"), y=("sc", "Float32"), p=("sc", "Int16"), wr="whole", cap=1 << 14),
     dict(name="static", w=("sc", "Int64"), a=("sc", "Float32"), s=("sc", "UInt16"), arr=("arr", "Int16", (3,), (3,)), k=("sc", "UInt8"), z=("sc", "Int8"),
-         h=("sc", "UInt32"), x=("sc", "UInt64"), y=("sc", "Int16"), wr="elem", cap=1 << 14),
+         h=("sc", "UInt32"), x=("sc", "UInt64"), y=("sc", "Int16"), p=("sc", "Float64"), wr="elem", cap=1 << 14),
     dict(name="nd", w=("sc", "UInt16"), a=("sc", "UInt8"), s=("str",), arr=("arr", "Float64", (2, 2), (2, 2)), k=("sc", "Int64"), z=("sc", "UInt16"),
-         h=("str",), x=("sc", "Float64"), y=("sc", "UInt32"), wr="whole", cap=1 << 14),        # (a Holder of dynamic size: reference + string)
+         h=("str",), x=("sc", "Float64"), y=("sc", "UInt32"), p=("str",), wr="whole", cap=1 << 14),   # (a Holder / Pair of dynamic size: reference(s) + string)
     dict(name="dyn2d-grow", w=("sc", "Float64"), a=("sc", "Int16"), s=("str",), arr=("arr", "Int32", (None, 2), (2, 2)), k=("sc", "Float32"), z=("sc", "Int32"),
-         h=("sc", "UInt64"), x=("sc", "Int8"), y=("sc", "UInt8"), wr="elem", cap=64),          # small buffers: growth during the history
+         h=("sc", "UInt64"), x=("sc", "Int8"), y=("sc", "UInt8"), p=("sc", "UInt32"), wr="elem", cap=64),   # small buffers: growth during the history
     # "flex": the string and the dynamic array of a Leaf have a length that differs from object to object (three layouts, chosen by
     # the object's initial tokens) in a complementary way, so that every Leaf has the same TOTAL size (nested assignment is
     # honoured) but another split between its two dynamically sized fields; a written value takes the length the slot has
     dict(name="split", w=("sc", "UInt8"), a=("sc", "Int64"), s=("str", "flex"), arr=("arr", "Float64", (None,), "flex"), k=("sc", "Int16"), z=("sc", "Float32"),
-         h=("sc", "Int32"), x=("sc", "UInt16"), y=("sc", "Float64"), wr="whole", cap=1 << 14),
+         h=("sc", "Int32"), x=("sc", "UInt16"), y=("sc", "Float64"), p=("sc", "Int8"), wr="whole", cap=1 << 14),
 ]
 # (string length, array length): 8 + slot(len + 1) + 16 + 8 n = 80 for each of them
 LAYOUTS = [(5, 4), (20, 2), (12, 3)]
@@ -95,7 +98,10 @@ def family(vi):
     Renamed = type("Renamed" + tag, (xo.HybridClass,), {"_xofields": {"_x": ty(v["x"]), "_in": Leaf, "y": ty(v["y"])},
                                                          "_rename": {"_x": "x", "_in": "inn"}})
     Wrap = type("Wrap" + tag, (xo.HybridClass,), {"_xofields": {"hold": Holder, "w": ty(v["w"])}})   # -> Holder._XoStruct nested by value
-    _FAM[vi] = dict(Leaf=Leaf, Mid=Mid, Outer=Outer, Holder=Holder, Renamed=Renamed, Wrap=Wrap)
+    Pair = type("Pair" + tag, (xo.HybridClass,), {"_xofields": {"r1": xo.Ref(Leaf), "_r2": xo.Ref(Leaf), "p": ty(v["p"])},
+                                                   "_rename": {"_r2": "r2"}})                         # two references to hybrid objects
+    WrapPair = type("WrapPair" + tag, (xo.HybridClass,), {"_xofields": {"hold": Pair, "w": ty(v["w"])}})   # -> Pair._XoStruct nested by value
+    _FAM[vi] = dict(Leaf=Leaf, Mid=Mid, Outer=Outer, Holder=Holder, Renamed=Renamed, Wrap=Wrap, Pair=Pair, WrapPair=WrapPair)
     return _FAM[vi]
 
 
@@ -345,7 +351,12 @@ def compare(world, model):
                     out.append(("unreadable", w2, f"{fpath}: {type(ex).__name__}: {ex}"))
                     continue
                 td, tx = mval(heap, [mnode["loc"][0], mnode["loc"][1] + [n]]), mval(heap, [xloc[0], xloc[1] + [n]])
-                if not agree(vi, py, dv, xv):
+                try:
+                    ag = agree(vi, py, dv, xv)
+                except Exception as ex:          # e.g. an array behind a dangling reference: the data cannot be read at all
+                    out.append(("unreadable", w2, f"{fpath}: {type(ex).__name__}: {ex}"))
+                    continue
+                if not ag:
                     out.append(("mirror-value", w2, f"{fpath} reads {U.short(dv)} but _xobject path reads {U.short(xv)}"))
                 if not same(vi, py, dv, td):
                     out.append(("value-dressed", w2, f"{fpath} reads {U.short(dv)}, model {_want(vi, py, td, dv)}"))
@@ -507,7 +518,7 @@ def _worker(task):
 
 
 # ----------------------------------------------------------------------------- TLC: export and model checking
-ALLW = '{"a","s","arr","k","z","h","x","y","w"}'
+ALLW = '{"a","s","arr","k","z","h","x","y","w","p"}'
 CONST = "Scens = {scen} MaxDepth = {d} MaxH = {mh} Vals = {vals} WSlots = {ws} Bufs = {{1,2}} Bug = {bug}"
 INVS = "INVARIANT Mirror\nINVARIANT CopyIndependent\nINVARIANT PartsInside\nINVARIANT RefShares\n"
 PROPS = "INVARIANT MoveRefusal\nPROPERTY CopyEqual\nPROPERTY MovePreserves\nPROPERTY WriteLocal\nPROPERTY NestedStoresCopy\n"
@@ -594,19 +605,21 @@ def tlc_check(job):
 # export: (scenario, depth, MaxH, Vals, WSlots, realisations per transition) - every transition replayed on the real library
 TIERS = {
     "quick": dict(
-        check=[((1, 2, 3, 4, 5, 6, 7), 4, 3, "{1}", '{"a","x","arr"}', 6), ((8,), 3, 6, "{1}", '{"a","h","w"}', 3)],   # 8 starts with 5 objects
-        props=[((1, 2, 3, 4, 6), 2, 3, "{1,2}", ALLW, 3), ((8,), 2, 6, "{1,2}", ALLW, 2)],
+        check=[((1, 2, 3, 4, 5, 6, 7), 4, 3, "{1}", '{"a","x","arr"}', 6), ((8,), 3, 6, "{1}", '{"a","h","w"}', 3),   # 8, 9 start with 5 objects
+               ((9,), 3, 6, "{1}", '{"a","p","w"}', 3)],
+        props=[((1, 2, 3, 4, 6), 2, 3, "{1,2}", ALLW, 3), ((8,), 2, 6, "{1,2}", ALLW, 2), ((9,), 2, 6, "{1,2}", ALLW, 2)],
         export=[(1, 3, 3, "{1}", '{"a","k"}', 1), (7, 3, 3, "{1}", ALLW, 1), (2, 4, 3, "{1}", '{"a"}', 1), (3, 3, 3, "{1}", '{"a","x","y"}', 1),
-                (4, 4, 3, "{1}", '{"a"}', 1), (5, 2, 3, "{1}", '{"a"}', 1), (6, 4, 3, "{1}", '{"a"}', 1), (8, 3, 6, "{1}", '{"a","h"}', 1)],
+                (4, 4, 3, "{1}", '{"a"}', 1), (5, 2, 3, "{1}", '{"a"}', 1), (6, 4, 3, "{1}", '{"a"}', 1), (8, 3, 6, "{1}", '{"a","h"}', 1), (9, 3, 6, "{1}", '{"a"}', 1)],
         tlc_parallel=10, pool=10),
     "thorough": dict(
         check=[((2, 4, 6), 6, 3, "{1}", '{"a"}', 4), ((3, 7), 6, 3, "{1}", '{"a","x"}', 5), ((1,), 6, 3, "{1}", '{"a"}', 6), ((5,), 5, 3, "{1}", '{"a"}', 4),
-               ((1, 2, 3, 4, 5, 6, 7), 4, 4, "{1,2}", '{"a","x","arr","s"}', 6), ((8,), 4, 6, "{1}", '{"a","h"}', 4)],
-        props=[((1, 2, 3, 4, 5, 6, 7), 3, 3, "{1,2}", ALLW, 4), ((8,), 3, 6, "{1,2}", ALLW, 3)],
+               ((1, 2, 3, 4, 5, 6, 7), 4, 4, "{1,2}", '{"a","x","arr","s"}', 6), ((8,), 4, 6, "{1}", '{"a","h"}', 4), ((9,), 4, 6, "{1}", '{"a"}', 4)],
+        props=[((1, 2, 3, 4, 5, 6, 7), 3, 3, "{1,2}", ALLW, 4), ((8,), 3, 6, "{1,2}", ALLW, 3), ((9,), 3, 6, "{1,2}", '{"a","p","w"}', 3)],
         export=[(1, 4, 3, "{1}", '{"a","k"}', 1), (2, 6, 3, "{1}", '{"a"}', 1), (3, 5, 3, "{1}", '{"a","x"}', 1), (4, 5, 3, "{1}", '{"a"}', 1),
                 (5, 3, 3, "{1}", '{"a"}', 2), (6, 6, 3, "{1}", '{"a"}', 1), (7, 4, 3, "{1}", '{"a","s","arr","k"}', 1),
                 (1, 3, 3, "{1,2}", ALLW, 4), (3, 3, 3, "{1,2}", ALLW, 4), (7, 3, 4, "{1,2}", ALLW, 4), (2, 3, 4, "{1,2}", ALLW, 4),
-                (8, 4, 6, "{1}", '{"a"}', 1), (8, 2, 7, "{1,2}", ALLW, 5)],
+                (8, 4, 6, "{1}", '{"a"}', 1), (8, 2, 7, "{1,2}", ALLW, 5),
+                (9, 3, 6, "{1}", '{"a","p"}', 2), (9, 2, 7, "{1,2}", ALLW, 5)],
         tlc_parallel=6, pool=10),
 }
 
@@ -667,7 +680,9 @@ def check(pid, argv=None):
     run.assumptions += [
         "contract XoHybrid.tla transcribes C18; class family Leaf/Mid/Outer (three levels), Holder (Ref), Renamed (renamed scalar and nested field), "
         "Wrap (a nested part that itself holds a reference; a nested assignment from another buffer gives the copy a duplicate of the referent "
-        "in the destination's buffer, as copy does)",
+        "in the destination's buffer, as copy does), Pair (two references, the second renamed) and WrapPair (a nested part holding two references): "
+        "copy / nested assignment into another buffer duplicates the referent once PER REFERENCE (two references to one object become references "
+        "to two distinct duplicates, as Ref._to_buffer does on the pinned tree; DESIGN 1.5 'Copy'), same-buffer operations keep sharing",
         "objects of one class have equal sizes (same array lengths, strings in one 16-byte box): size-changing assignment is C10/C11's domain",
         "move of a reference TARGET and of an object whose reference fields are all null is left open by the property (either outcome accepted)",
         "`_movable` flags are compared as model-drift only; the verdict is on refusal behaviour",
@@ -687,7 +702,8 @@ def check(pid, argv=None):
     jobs_c = [(f"inv-s{''.join(map(str, s))}d{d}h{mh}", consts(s, d, mh, vals, ws), False, w, False) for s, d, mh, vals, ws, w in tier["check"]]
     jobs_c += [(f"prop-s{''.join(map(str, s))}d{d}", consts(s, d, mh, vals, ws), True, w, False) for s, d, mh, vals, ws, w in tier["props"]]
     jobs_c += [("selftest-bug", consts(1, 2, 3, "{1}", '{"a"}', bug="TRUE"), False, 1, True),
-               ("selftest-bug-nested-ref", consts(8, 2, 6, "{1}", '{"a"}', bug="TRUE"), False, 1, True)]     # ... also for parts that hold references
+               ("selftest-bug-nested-ref", consts(8, 2, 6, "{1}", '{"a"}', bug="TRUE"), False, 1, True),     # ... also for parts that hold references
+               ("selftest-bug-two-refs", consts(9, 1, 6, "{1}", '{"a"}', bug="TRUE"), False, 1, True)]       # ... and for two references sharing a duplicate
     mc, xstats, files, results = {}, {}, {}, []
     per_op = collections.Counter()
     gid = 0
